@@ -1,6 +1,8 @@
 import Arimaa.Props.C09
 import Arimaa.Lemmas.RsAgreeStep
+import Arimaa.Lemmas.RsAgreeOffered
 import Arimaa.Gen.Bridge.GameState_take_action
+import Arimaa.Gen.Bridge.GameState_valid_actions
 import Arimaa.Gen.Bridge.GameState_valid_placement
 import Arimaa.Gen.Bridge.PieceBoardState_placement_bit
 
@@ -34,5 +36,18 @@ theorem C09_code_agrees :
    (by simp only [bridge_GameState_valid_placement]; exact RsAgree.valid_placement),
    (by simp only [bridge_PieceBoardState_placement_bit]; exact RsAgree.placement_bit)⟩
 
+theorem C09_code_offered_list (s : GameState) (r : List Action)
+    (h : GameState_valid_actions s = .ok r) : r = s.validActions := by
+  simp only [bridge_GameState_valid_actions] at h
+  exact (C09_value_of_ok (RsAgree.valid_actions_eq s) h).2
+
+/-- **C09 for the code as it is now**: during setup the regenerated `valid_actions` offers exactly the piece types
+the mover has not yet placed in full, in the fixed order elephant … rabbit -/
+theorem C09_code_offered (s : GameState) (hph : s.phase = .place) (l : List Action)
+    (hl : GameState_valid_actions s = .ok l) :
+    l = (([.elephant, .camel, .horse, .dog, .cat, .rabbit] : List Piece).filter
+        (fun t => decide (moverCount s t < complement t))).map Action.place := by
+  rw [C09_code_offered_list s l hl]
+  exact C09_offered s hph
 
 end Arimaa
